@@ -228,6 +228,33 @@ def body(run, sym, sc):
 worker = functools.partial(kindl.guarded_worker, PID, body)
 
 
+def body_halo(run, sym, sc):
+    """O4: with a halo the retained components are those of the padded periodic grid the transform runs on
+    (period nxe*dx, nye*dy - not xmx + 2*halo): a run with halo h equals, cell by cell and for all sources, the
+    run on the explicitly zero-padded source with halo 0, whose components O1-O3 are about."""
+    sp = sym.sp
+    ny, nx = sc["ny"], sc["nx"]
+    q = sym.field((ny, nx))
+    bg = sym.var("bg")
+    nxe, nye, px, py = kindl.padded(sc)
+    g, c1, f1 = kindl.sym_solve(sym, sc, q, srf_bg_conc=bg)
+    qp = np.pad(q, ((py, py), (px, px)), mode="constant", constant_values=0.0).view(af.SymArr)
+    scp = dict(sc, halo=0.0, ny=nye, nx=nxe)
+    g, c2, f2 = kindl.sym_solve(sym, scp, qp, srf_bg_conc=bg)
+    c1, f1 = kindl.lv3(c1, sc), kindl.lv3(f1, sc)
+    c2 = kindl.lv3(c2, scp, (nye, nxe))[:, py:nye - py, px:nxe - px]
+    f2 = kindl.lv3(f2, scp, (nye, nxe))[:, py:nye - py, px:nxe - px]
+    scn = dict(sc, obligation="O4", pad=[py, px])
+    for name, a, b in (("O4_halo_components_are_those_of_the_padded_grid(flux)", f1, f2), ("O4_halo_components_are_those_of_the_padded_grid(conc)", c1, c2)):
+        vals = kindl.forms_equal(run, sp, a, b, name, scn)
+        if vals is not None:
+            run.cex.append(dict(scenario=scn, obligation=name, q=kindl.field_from_model(vals, (ny, nx)).tolist(), bg=vals.get("bg", 0.0)))
+    run.sample(dict(scenario=scn, variables=sp.dim - 1), cap=4)
+
+
+worker_halo = functools.partial(kindl.guarded_worker, PID, body_halo)
+
+
 # ---------------------------------------------------------------------------
 # replay: Riccati reference
 
@@ -293,6 +320,12 @@ def riccati_errors(n_list=(64, 256)):
 
 
 def replay(rec):
+    if str(rec.get("obligation", "")).startswith("O4_"):
+        from . import C03
+
+        r = C03.replay(dict(rec, obligation="halo_equals_padding_flux"))
+        r["obligation"] = rec["obligation"]
+        return r
     errs = riccati_errors()
     ratio = errs[0] / errs[1] if errs[1] > 0 else float("inf")
     return dict(obligation=rec.get("obligation"), errors_n_4n=errs, ratio=ratio, need=">= 2.5",
@@ -324,7 +357,9 @@ def main(run):
         "bottom-up, with that layer's own thickness (left/right/mean sampling accepted). O2: the whole real solver "
         "in exact arithmetic on a 4x4 grid returns the prescribed flux at the surface for every retained mode. "
         "O3: for concrete profile families z3 decides for all sources that the spectral coefficients at the top "
-        "node satisfy the decaying constant-coefficient continuation. The convergence rate itself is outside the "
+        "node satisfy the decaying constant-coefficient continuation. O4: with a halo (every class, including widths that are "
+        "not a whole number of cells) the result equals, for all sources, the halo-0 result on the explicitly padded source, "
+        "so the components O1-O3 speak about are those of the padded periodic grid. The convergence rate itself is outside the "
         "claim (used only in replay against a DOP853 Riccati reference)."
     )
     run.assumptions = [
@@ -377,6 +412,21 @@ def main(run):
                       O3=dict(grids=sorted({(s["ny"], s["nx"]) for s in scs}), profiles=sorted({s["pid"] for s in scs}), scenarios=len(scs)),
                       outside="the convergence theorem and its constants; rounding; resolution conditions")
     cex = run.pmap(worker, scs)
+    kindl.handle_cex(run, PID, cex, replay, cap=2)
+    hscs = [s_ for s_ in kindl.base_scenarios(run.tier, run.seed) if s_["halo"] not in (0.0,)]
+    if run.tier == "quick":
+        # every halo class once (default, whole cells in x only / y only, incommensurate, large, float-lossy)
+        seen, keep = set(), []
+        for s_ in hscs:
+            nxe_, nye_, px_, py_ = kindl.padded(s_)
+            hx, hy = (s_["halo"] or 0) / s_["dx"], (s_["halo"] or 0) / s_["dy"]
+            cls = (s_["halo"] is None, s_.get("halo_class"), abs(hx - round(hx)) < 1e-6, abs(hy - round(hy)) < 1e-6)
+            if cls not in seen and nxe_ * nye_ <= 400:
+                seen.add(cls)
+                keep.append(s_)
+        hscs = keep
+    run.bounds["O4"] = dict(scenarios=len(hscs), halos=sorted({str(s_["halo"]) for s_ in hscs}))
+    cex = run.pmap(worker_halo, hscs)
     kindl.handle_cex(run, PID, cex, replay, cap=2)
     cscs = kindl.base_scenarios("quick", 0, halos=False)
     pick = [s for s in cscs if s["pid"] in ("P2", "P5")][:2]
